@@ -38,6 +38,9 @@ type guardsAn struct {
 	price        map[*types.Func]bool // transitively reaches a price call
 	ctl          map[*types.Func]bool // transitively reads the circuit breaker / ESM status
 	callees      map[*types.Func][]*types.Func
+	// `x, _ := k.market.GetTwa(ctx, id)`: a raw read of the oracle record that discards the found flag
+	// (and so cannot be followed by a check of it): treated as a price call site whose error is ignored
+	rawTwa map[*ast.CallExpr]bool
 }
 
 var guardsShared *guardsAn
@@ -50,7 +53,8 @@ func guardsAnalysis(c *corpus) *guardsAn {
 		return guardsShared
 	}
 	an := &guardsAn{c: c, decls: map[*types.Func]guardsDecl{}, keeperByName: map[string][]*types.Func{},
-		writes: map[*types.Func]bool{}, mints: map[*types.Func]bool{}, price: map[*types.Func]bool{}, ctl: map[*types.Func]bool{}, callees: map[*types.Func][]*types.Func{}}
+		writes: map[*types.Func]bool{}, mints: map[*types.Func]bool{}, price: map[*types.Func]bool{}, ctl: map[*types.Func]bool{}, callees: map[*types.Func][]*types.Func{},
+		rawTwa: map[*ast.CallExpr]bool{}}
 	for _, p := range c.all {
 		for _, f := range p.Syntax {
 			for _, d := range f.Decls {
@@ -89,6 +93,14 @@ func guardsAnalysis(c *corpus) *guardsAn {
 				if sel.Sel.Name == "Status" {
 					if t := d.pkg.TypesInfo.TypeOf(sel.X); t != nil && strings.HasSuffix(t.String(), "ESMStatus") {
 						an.ctl[fn] = true
+					}
+				}
+			}
+			if as, ok := n.(*ast.AssignStmt); ok && len(as.Rhs) == 1 && len(as.Lhs) == 2 {
+				if c, ok := as.Rhs[0].(*ast.CallExpr); ok && guardsCalleeName(c) == "GetTwa" {
+					if id, ok := as.Lhs[1].(*ast.Ident); ok && id.Name == "_" && !strings.Contains(d.pkg.PkgPath, "/x/market") {
+						an.rawTwa[c] = true
+						an.price[fn] = true
 					}
 				}
 			}
@@ -1343,6 +1355,14 @@ func (an *guardsAn) priceUses(root *types.Func) []guardsPriceUse {
 			h := hd[call]
 			if h == "" {
 				h = "POther"
+			}
+			if an.rawTwa[call] {
+				u := guardsPriceUse{fname, "GetTwa", "PIgnored"}
+				if !dedup[u] {
+					dedup[u] = true
+					out = append(out, u)
+				}
+				return true
 			}
 			if guardsPriceFns[name] && !guardsPriceFns[fn.Name()] {
 				u := guardsPriceUse{fname, name, h}
